@@ -1389,6 +1389,8 @@ def b_filter(run, f, it):
 
 @callm(builtins.zip)
 def b_zip(run, *its, **kw):
+    if its and all(isinstance(i, (VSymIter, VSymList)) for i in its):
+        return VSymIter(lambda run: VTuple([i.next_elem(run) for i in its]), "zip")
     srcs = [run.iterate(i) for i in its]
 
     def gen():
